@@ -192,6 +192,88 @@ def family(t, sd):
     return items
 
 
+# ------------------------------------------------------------------ constants supplied through the API
+def api_items(t, sd):
+    """models of the C03 family with one literal lifted into a constant, written three ways: the constant in the
+    where-block (reference); the constant supplied through the API (parse_and_transform / PipeContext / RoocSolver data);
+    the constant DERIVED in the where-block from an API constant (`let kc = ka + 1`, ka = kc - 1 supplied), which needs
+    the where-block to see what the API supplied"""
+    base = c03.family(t, sd)
+    out = []
+    for j, it in enumerate(base[::(7 if t == 'quick' else 2)]):
+        m2, consts = textgen.lift_constants(it['model'])
+        if not consts:
+            continue
+        v = consts['kc']
+        style = it.get('style', 'paren')
+        try:
+            ref = textgen.model_text(m2, style, consts)
+            bare = textgen.model_text(m2, style, None)
+        except Exception:
+            continue
+        lines = bare.split('\n')
+        # a where-block is written between the constraints and the define section
+        if 'define' not in lines:
+            continue   # variable-free model
+        k = lines.index('define')
+        derived = '\n'.join(lines[:k] + ['where', '    let kc = ka + 1'] + lines[k:])
+        out.append({'ref': ref, 'variants': [{'src': bare, 'consts': [['kc', v]], 'how': 'api'},
+                                             {'src': derived, 'consts': [['ka', v - 1]], 'how': 'derived-from-api'}], 'model': m2})
+    return out
+
+
+def api_work(chunk):
+    zq.reset_stats()
+    jobs = []
+    for it in chunk:
+        jobs.append({'cmd': 'text', 'src': it['ref'], 'want': ['type_check']})
+        jobs.append({'cmd': 'solve_text', 'src': it['ref']})
+        for var in it['variants']:
+            jobs.append({'cmd': 'text', 'src': var['src'], 'consts': var['consts'], 'want': ['type_check']})
+            jobs.append({'cmd': 'pipe', 'src': var['src'], 'consts': var['consts'], 'solver': 'auto'})
+            jobs.append({'cmd': 'solve_text', 'src': var['src'], 'consts': var['consts']})
+    outs = run_driver(jobs)
+    results, k = [], 0
+    for it in chunk:
+        res = {'idx': it['idx'], 'fails': [], 'q': 0, 'unknown': [], 'status': 'ok'}
+        oref, sref = outs[k], outs[k + 1]
+        k += 2
+        lref = ((oref.get('model') or {}).get('lin') or {})
+        for var in it['variants']:
+            ot, op, os_ = outs[k], outs[k + 1], outs[k + 2]
+            k += 3
+            lt = ((ot.get('model') or {}).get('lin') or {})
+            tag = {'how': var['how'], 'src': var['src'], 'consts': var['consts']}
+            if ('ok' in lref) != ('ok' in lt):
+                res['fails'].append(dict(tag, ob='api-constant-door-differs-on-acceptance', ref=str(lref.get('err') or (oref.get('model') or {}).get('err'))[:160],
+                                         got=str(lt.get('err') or (ot.get('model') or {}).get('err') or (ot.get('type_check') or {}).get('err'))[:200], point=None))
+                continue
+            if 'ok' in lref:
+                LA, LB = lref['ok'], lt['ok']
+                names = [n for n, _ in LA['vars'] if not n.startswith('$')]
+                if sorted(n for n, _ in LB['vars'] if not n.startswith('$')) != sorted(names):
+                    res['fails'].append(dict(tag, ob='api-constant-door-variable-set-differs', point=None))
+                    continue
+                bad = c10.equivalent(LA, LB, res, declared=names)
+                if bad:
+                    res['fails'].append(dict(tag, ob='api-constant-door-model-differs', direction=bad[0], point=bad[1]))
+            # the solving doors: same verdict and optimum as the reference text
+            a, b = sol_summary(sref), sol_summary(os_)
+            if a[0] != b[0] or (a[0] == 'ok' and abs(a[1] - b[1]) > 1e-6 * (1 + abs(a[1]))):
+                res['fails'].append(dict(tag, ob='api-constant-solver-door-differs', ref=str(a), got=str(b), point=None))
+        results.append(res)
+    return [{'results': results, 'stats': dict(zq.STATS)}]
+
+
+def api_replay(chunk):
+    out = []
+    for it, f in chunk:
+        r = api_work([dict(it, idx=0)])[0]['results'][0]
+        same = [x for x in r['fails'] if x['ob'] == f['ob'] and x.get('how') == f.get('how')]
+        out.append((bool(same), {'reference': it['ref'], 'failure': same[0] if same else None}))
+    return out
+
+
 # ------------------------------------------------------------------ macro door
 def macro_items(t):
     """the two macro-written models of the driver (`vars!`, `constraint!`, `expr!`) over a grid of the numbers they take"""
@@ -354,6 +436,31 @@ def main(prop='C16'):
         confirmed += 1
         classes[f['ob']] = classes.get(f['ob'], 0) + 1
         rep.violation(sig, {'property': 'C16', 'macro_job': it, 'obligation': f['ob'], 'failure': f, 'confirmation': detail, 'kind': 'macro'})
+    # constants supplied through the API
+    aitems = api_items(t, sd)
+    for i, it in enumerate(aitems):
+        it['idx'] = i
+    aparts = parallel(api_work, aitems, chunk=25)
+    ares = []
+    for p in aparts:
+        ares += p['results']
+        for k in stats:
+            stats[k] += p['stats'][k]
+    atodo = []
+    for r in ares:
+        for u in r['unknown']:
+            rep.inconclusive.append({'src': aitems[r['idx']]['ref'], 'obligation': u})
+        for f in r['fails']:
+            atodo.append((aitems[r['idx']], f))
+    arep = parallel(api_replay, atodo, chunk=4) if atodo else []
+    for (it, f), (ok, detail) in zip(atodo, arep):
+        sig = {'stage': 'api-constants', 'obligation': f['ob'], 'how': f.get('how'), 'source': f.get('src')}
+        if not ok:
+            rep.broken.append({'why': 'did not reproduce', 'sig': sig})
+            continue
+        confirmed += 1
+        classes[f['ob']] = classes.get(f['ob'], 0) + 1
+        rep.violation(sig, {'property': 'C16', 'reference': it['ref'], 'obligation': f['ob'], 'failure': f, 'confirmation': detail, 'kind': 'api-constants'})
     if tw[0] > 0 and tw[1] == 0:
         rep.broken.append({'why': 'no must-fail twin detected', 'twins': tw})
     evidence = {
@@ -371,7 +478,8 @@ def main(prop='C16'):
                                   'RoocParser::parse_and_transform + Linearizer', 'PipeRunner [Compiler, PreModel, Model, LinearModel, AutoSolver]', 'RoocSolver::solve_using(auto_solver)'],
             'solver': 'z3 %s' % z3.get_version_string(), 'driver_build_s': round(build_s, 1), 'check_s': round(time.time() - t0, 1),
             'macro_door': {'models': len(mitems), 'by_status': mstatus, 'what': 'two models written with vars! / constraint! / expr! (every declaration rule, scalar and array; every relation and logic rule) over a grid of bounds, right-hand sides, counts and directions, compared (variable set, domains through the projection equivalence) with the same model as source text'},
-            'outside': ['macro-written models other than the two of the driver (a macro needs compile-time expansion per model shape)', 'constants supplied through the API'],
+            'api_constants_door': {'models': len(aitems), 'what': 'one literal lifted into a constant and supplied (a) in the where-block, (b) through the API of parse_and_transform / PipeContext / RoocSolver::solve_with_data_using, (c) derived in the where-block from an API constant; compiled models compared by projection equivalence, solver doors by verdict and optimum'},
+            'outside': ['macro-written models other than the two of the driver (a macro needs compile-time expansion per model shape)', 'API constants other than numbers (arrays, graphs)'],
         },
         'assumptions': ['the mapping of generator trees onto builder calls in driver/src/front.rs is the API a user would write'],
     }
